@@ -265,6 +265,11 @@ def apply_tok(obj, t: int, nested_only: bool = False):
         if obj.MetricValue is None:
             obj.mk_metric_value()
         obj.MetricValue.Samples = [Decimal(t), Decimal(t + 1)]
+        # members of the waveform state other than its samples
+        if not obj.PhysiologicalRange:
+            obj.PhysiologicalRange = [pm_types.Range(lower=Decimal(-5), upper=Decimal(50 + t))]
+        else:
+            obj.PhysiologicalRange[0].Upper = Decimal(50 + t)
     elif name in ('AlertConditionStateContainer', 'LimitAlertConditionStateContainer'):
         obj.Presence = bool(t % 2)
         obj.ActualPriority = [pm_types.AlertConditionPriority.LOW, pm_types.AlertConditionPriority.HIGH][t % 2]
@@ -320,6 +325,12 @@ def apply_tok(obj, t: int, nested_only: bool = False):
             obj.ConditionSignaled = ('ac0.vmd0.mds0', 'ac1.vmd0.mds0')[t % 2]   # indexed (descriptions.condition_signaled)
     else:
         raise MachineryError(f'apply_tok: no concretisation for {name}')
+    if name.endswith('MetricStateContainer'):
+        # members every metric state has, next to its value
+        obj.ActivationState = [pm_types.ComponentActivation.ON, pm_types.ComponentActivation.STANDBY][t % 2]
+        obj.ActiveDeterminationPeriod = 1.0 + t
+        if t % 2:
+            obj.LifeTimePeriod = 2.0 + t
 
 
 def make_descriptor(mdib, a: str, parent_concrete: str | None, handle: str | None = None):
